@@ -130,6 +130,17 @@ func loadCorpus() {
 		qcase{text: "match (n) return n limit 5 + 5"},
 		qcase{text: "match (n) return n limit -1"},
 		qcase{text: "match (n) with n skip $s limit 3 return n", params: map[string]any{"s": int64(1)}},
+		// quantifiers without a WHERE, list comprehensions, pattern predicates with a later variable-length hop,
+		// CREATE of an untyped relationship
+		qcase{text: "match (n) where any(x in n.list) return n"},
+		qcase{text: "match (n) where all(x in n.list) return n"},
+		qcase{text: "match (n) where none(x in n.list where x = 1) return n"},
+		qcase{text: "match (n) return [x in n.list where x > 1]"},
+		qcase{text: "match (a) where (a)-[]->()-[*]->() return a"},
+		qcase{text: "match (a) where (a)-[*]->()-[]->() return a"},
+		qcase{text: "create (a)-[r]->(b)"},
+		qcase{text: "create (a)-[r:EdgeKind1|EdgeKind2]->(b)"},
+		qcase{text: "match (a), (b) create (a)-[:EdgeKind1]->(b)"},
 		// multi-part queries whose part before the WITH is one the optimizer rewrites (selective end node,
 		// variable-length expansion): the rewrite must happen on the translator's copy
 		qcase{text: "match p = (s:User)-[:MemberOf*0..]->(:Group)-[:AdminTo]->(d:Computer) where d.name = 'x' with p, d match (d)-[:AdminTo]->(c:Computer) return p, c"},
